@@ -112,6 +112,36 @@ def check(ctx, p):
                             pairs[chr(a)] = b
     want_pairs = {l: pe[nm_] for l, nm_ in zip('PNBRQKpnbrqk', ('W_PAWN', 'W_KNIGHT', 'W_BISHOP', 'W_ROOK', 'W_QUEEN', 'W_KING',
                                                                  'B_PAWN', 'B_KNIGHT', 'B_BISHOP', 'B_ROOK', 'B_QUEEN', 'B_KING'))}
+    if not pairs and len(pd) == 1:
+        # no map: the piece is computed from the letter by string handling on constants (a letter string and find, a switch,
+        # a helper): evaluated for each of the twelve letters
+        from rules.streval import StrEval, Unknown as _SU
+        se = StrEval(p)
+        consts = {}
+        for n in ct.all_nodes():
+            if n['k'] == 'VarDecl' and kids(n) and 'string' in (n.get('t') or '') and 'const' in (n.get('t') or ''):
+                lit = [x for x in walk(n) if x['k'] == 'StringLiteral']
+                if len(lit) == 1:
+                    consts[n['name']] = lit[0].get('s', '')
+        blk = ct.parent(ct.parent(pd[0]))
+        before = []
+        for st in (kids(blk) if blk is not None and blk['k'] == 'CompoundStmt' else []):
+            if any(x is pd[0] for x in walk(st)):
+                break
+            if st['k'] == 'DeclStmt':
+                before.append(st)
+        try:
+            for l in 'PNBRQKpnbrqk':
+                env = dict(consts)
+                env['c'] = l
+                se.run(ct, before, env)
+                v = se.ev(ct, kids(pd[0])[0], env)
+                if not isinstance(v, int):
+                    raise _SU('value %r for letter %s' % (v, l))
+                pairs[l] = v
+            okp = True
+        except _SU as e_:
+            raise AnalysisBroken('C16: how the reader turns a letter into a piece was not understood (%s)' % e_)
     if not pairs:
         raise AnalysisBroken('C16: the letter table of the reader was not found')
     ctx.ob('C16.R4.letters-read', 'char_to_piece', okp and pairs == want_pairs,
